@@ -403,6 +403,10 @@ func Universe(quick bool) []Case {
 	vals = append(vals, ref.Sweep(append(ref.ScalarsFull(), ref.UintsBig()...))...)
 	vals = append(vals, c02.PermutedMaps(ref.LinkOrderKeys, 3)...)
 	vals = append(vals, c02.WideContainers()...)
+	// the shapes DAG-JSON reserves are ordinary maps for every other codec (plain json included), and
+	// their near misses are ordinary for all of them
+	vals = append(vals, c04.ReservedShapes()...)
+	vals = append(vals, c04.NearMisses()...)
 	var cases []Case
 	for _, codec := range Codecs {
 		protos := MainProtos(codec)
